@@ -65,7 +65,8 @@ type Step struct {
 	Op     string `json:"op"` // send | cancel | wait
 	R      string `json:"r,omitempty"`
 	N      int    `json:"n,omitempty"`
-	Sc     string `json:"sc,omitempty"` // span | unsampled | none
+	Sc     string   `json:"sc,omitempty"` // span | unsampled | none | chain
+	Up     []string `json:"up"`           // chain: the requests of the upstream batch whose context this request carries
 	Dl     int    `json:"dl"`           // model value of the caller deadline class (0 = none)
 	DlMs   int64  `json:"dl_ms"`
 	Cancel string `json:"cancel,omitempty"` // no | pre | post
@@ -228,6 +229,55 @@ func (r *runner) export(ctx context.Context, ld plog.Logs) error {
 	return toErr(out)
 }
 
+// upstreamContext returns the context a REAL upstream exporter helper (batching, no-op tracer as with
+// service::telemetry::traces::level none) hands to its export function for a batch merged from the requests named in
+// up, each sent with a span context of its own: no span context, the links to them registered in it.
+func (r *runner) upstreamContext(up []string) (context.Context, func(), error) {
+	got := make(chan context.Context, 1)
+	set := exporter.Settings{ID: component.MustNewID("upstream"), TelemetrySettings: componenttest.NewNopTelemetrySettings(),
+		BuildInfo: component.NewDefaultBuildInfo()}
+	qc := exporterhelper.NewDefaultQueueConfig()
+	qc.NumConsumers = 1
+	qc.Sizer = exporterhelper.RequestSizerTypeItems
+	qc.Batch = &exporterhelper.BatchConfig{FlushTimeout: time.Hour, MinSize: int64(len(up))}
+	u, err := exporterhelper.NewLogs(context.Background(), set, struct{}{}, func(ctx context.Context, _ plog.Logs) error {
+		select {
+		case got <- ctx:
+		default:
+		}
+		return nil
+	}, exporterhelper.WithQueue(qc), exporterhelper.WithTimeout(exporterhelper.TimeoutConfig{Timeout: 0}))
+	if err != nil {
+		return nil, nil, err
+	}
+	if err := u.Start(context.Background(), componenttest.NewNopHost()); err != nil {
+		return nil, nil, err
+	}
+	stop := func() { _ = u.Shutdown(context.Background()) }
+	for i, name := range up {
+		var tid trace.TraceID
+		var sid trace.SpanID
+		tid[0], tid[15] = 0xA7, byte(i+1)
+		sid[0], sid[7] = 0xA7, byte(i+1)
+		r.mu.Lock()
+		r.byTr[tid] = name
+		r.mu.Unlock()
+		ctx := trace.ContextWithSpanContext(context.Background(), trace.NewSpanContext(trace.SpanContextConfig{
+			TraceID: tid, SpanID: sid, TraceFlags: trace.FlagsSampled, Remote: true}))
+		if err := u.ConsumeLogs(ctx, mkLogs(name, 1)); err != nil {
+			stop()
+			return nil, nil, err
+		}
+	}
+	select {
+	case x := <-got:
+		return x, stop, nil
+	case <-time.After(10 * time.Second):
+		stop()
+		return nil, nil, errors.New("the upstream exporter did not flush its batch")
+	}
+}
+
 // validateScript records what TimeoutConfig.Validate says about a few timeouts (nanoseconds)
 func validateScript(sc Script) []ev {
 	evs := []ev{{"ev": "reset", "sid": sc.ID, "cfg": ev{"queue": "none", "batch": false, "min": 0, "max": 0, "timeout": 0, "retry": false, "enq": false}}}
@@ -311,14 +361,27 @@ func runScript(sc Script) []ev {
 	}
 	cancels := map[string]context.CancelFunc{}
 	var cleanup []context.CancelFunc
+	var upCtx context.Context // one upstream context per script, shared by all "chain" requests
 	var sendWG sync.WaitGroup
 	nreq := 0
 	for _, st := range sc.Steps {
 		switch st.Op {
 		case "send":
 			nreq++
-			ctx := context.WithValue(context.Background(), reqKeyT{}, st.R)
-			if st.Sc != "none" {
+			base := context.Background()
+			if st.Sc == "chain" {
+				if upCtx == nil {
+					x, stop, err := r.upstreamContext(st.Up)
+					if err != nil {
+						return fail("upstream: " + err.Error())
+					}
+					upCtx = x
+					defer stop()
+				}
+				base = upCtx
+			}
+			ctx := context.WithValue(base, reqKeyT{}, st.R)
+			if st.Sc == "span" || st.Sc == "unsampled" {
 				var tid trace.TraceID
 				var sid trace.SpanID
 				tid[0], tid[15] = 0xE3, byte(nreq)
@@ -348,7 +411,11 @@ func runScript(sc Script) []ev {
 				cancel()
 			}
 			ld := mkLogs(st.R, st.N)
-			a := ev{"n": st.N, "sc": st.Sc, "dl": st.Dl, "cancel": st.Cancel}
+			up := st.Up
+			if up == nil {
+				up = []string{}
+			}
+			a := ev{"n": st.N, "sc": st.Sc, "dl": st.Dl, "cancel": st.Cancel, "up": up}
 			do := func() {
 				r.log(ev{"ev": "send", "r": st.R, "D": D, "a": a}, "t")
 				res := "ok"
